@@ -120,6 +120,14 @@ def run(ctx):
         ctx.cov["harvested_inputs"] = nh
     for src, t in constexpr_inputs(ctx):
         inputs.append(("constexpr:%s" % h(src)[:8], None, src, t, "c"))
+    # the whole one-edit neighbourhood of a compact tour of the grammar (Mutate.tla, Exhaustive = TRUE): every token deleted,
+    # duplicated, swapped with its successor, the file cut after it, and every token replaced by / preceded by each separator —
+    # the invalid inputs next to valid syntax are where a miscompiled loop or test in cproc's own parser shows (seed c02-d)
+    tour = os.path.join(vlib.VERIF, "harness", "tour.c")
+    nb = mutate.neighbourhood(ctx, tour, mutate.SEPARATORS if ctx.quick else mutate.ALPHA)
+    ctx.cov["tour_neighbourhood"] = len(nb)
+    for src, d in nb:
+        inputs.append(("tour:%s" % h(src)[:8], None, src, "x86_64-sysv", "c"))
     nmut = 800 if ctx.quick else 8000
     for src, t, mode, d in mutate.generate(ctx, nmut, max_edits=2 if ctx.quick else 3):
         inputs.append(("mutant:%s:%s" % (d["file"], h(src)[:8]), None, src, t, mode))
